@@ -20,7 +20,7 @@ FUNCTIONS = [("pandapower.powerflow", "_powerflow"), ("pandapower.powerflow", "_
              ("pandapower.contingency.contingency", "run_contingency"), ("pandapower.auxiliary", "_add_auxiliary_elements"),
              ("pandapower.auxiliary", "_clean_up"), ("pandapower.pd2ppc", "_pd2ppc"), ("pandapower.build_branch", "_get_vk_values_from_table"),
              ("pandapower.build_branch", "_calc_tap_from_dataframe"), ("pandapower.build_bus", "_calc_shunts_and_add_on_ppc")]
-STUBS = ["every stage called by the orchestrating functions is wrapped: symbolic fault variable consulted before and after the *real* stage "
+STUBS = ["every stage called by the orchestrating functions is wrapped: symbolic fault point and symbolic exception class (8 classes incl. the repository's own not-converged exceptions and a BaseException) consulted before and after the *real* stage "
          "(at most one fault per run); stage list derived from the AST of the orchestrating functions on every run"]
 ASSUMPTIONS = ["at most one fault per run; the restore routine called from the exception handlers (_remove_auxiliary_elements) does not itself crash", "(A) table cells read by the builders are symbolic; (B) the net is concrete (dcline, tap-table trafo, gen, load, shunt), the fault "
                "point is the solver's variable", "'unchanged' = same row index per element table and every pre-existing column still present with "
@@ -36,6 +36,18 @@ _NET = {}
 
 class Injected(Exception):
     pass
+
+
+def _fault_kinds():
+    from pandapower.auxiliary import LoadflowNotConverged, OPFNotConverged, ControllerNotConverged
+    return [Injected, LoadflowNotConverged, OPFNotConverged, ControllerNotConverged, UserWarning, ValueError, KeyError, _Interrupt]
+
+
+class _Interrupt(BaseException):
+    """stands for KeyboardInterrupt / SystemExit: not derived from Exception"""
+
+
+FAULT_KINDS = _fault_kinds()
 
 
 def _net():
@@ -138,6 +150,7 @@ def make_fault(calc):
         net = copy.deepcopy(_net())
         snap = _snapshot(net)
         w = ctx.var("fault_point", 0., 400.)
+        kind = ctx.var("fault_kind", 0., float(len(FAULT_KINDS)))
         counter = {"p": 0}
         trace = []
 
@@ -147,7 +160,11 @@ def make_fault(calc):
             hit = (w >= p) & (w < p + 1) if ctx.symbolic else (p <= float(w) < p + 1)
             if bool(hit):
                 trace.append(label)
-                raise Injected(label)
+                # the exception class is part of the schedule: handlers that special-case a class are explored too
+                for k, mk in enumerate(FAULT_KINDS):
+                    last = k == len(FAULT_KINDS) - 1
+                    if last or bool(kind < k + 1):
+                        raise mk(label)
 
         restore = []
         try:
@@ -183,9 +200,9 @@ def make_fault(calc):
                 elif calc == "run_contingency":
                     sys.modules["pandapower.contingency.contingency"].run_contingency(net, {"line": {"index": [0, 3]}, "trafo": {"index": [0]}},
                                                                                           raise_errors=True, numba=False)
-            except Injected as e:
-                raised = str(e)
-            except Exception as e:       # natural exceptions count as crash points too
+            except BaseException as e:       # injected faults of every class; natural exceptions count as crash points too
+                if type(e).__name__ in ("Abort", "Infeasible", "SkipSample"):
+                    raise
                 raised = f"{type(e).__name__}"
         finally:
             for mod, nm, orig in restore:
@@ -246,7 +263,7 @@ def instances(tier):
     out = []
     calcs = ["runpp", "rundcpp", "runopp", "calc_sc", "run_contingency"] + (["rundcopp"] if tier == "thorough" else [])
     for c in calcs:
-        out.append(Inst(f"fault_schedule_{c}", make_fault(c), nvars=4, samples=3, max_paths=600, meta=dict(part="B", calculation=c)))
+        out.append(Inst(f"fault_schedule_{c}", make_fault(c), nvars=5, samples=3, max_paths=4000, meta=dict(part="B", calculation=c)))
     out.append(Inst("builders_pf", make_builders("pf"), nvars=40, samples=2, meta=dict(part="A", mode="pf"), raises=(UserWarning,)))
     return out
 
